@@ -1,12 +1,23 @@
 /-
   C17 — a seed fully determines every stochastic result.
 
-  Property theorems only.  `wellSeeded_sound` is the generic statement about the effect semantics of
-  `C17/Rng.lean`; `C17_table` instantiates its hypothesis on the table that the translator regenerates
-  from the current Python source (`Generated/SeedTable.lean`) and is the obligation that breaks when a
-  `random.seed(seed)` is deleted, `random` is swapped for `np.random`, or a solver is called with fresh
-  entropy.  `C17_same_seed_same_draws` is C17 as stated: same seed ⇒ same drawn values, whatever was
-  called or drawn before and in between.
+  Property theorems only.
+
+  * `wellSeeded_sound` is the generic statement about the effect semantics of `C17/Rng.lean`: an effect list that
+    passes the decidable seeding discipline draws the same values from every initial world.
+  * `C17_table` instantiates its hypothesis on every entry of the table that the translator regenerates from the
+    current Python source (`Generated/SeedTable.lean`); it is the obligation that breaks when a `random.seed(seed)`
+    is deleted, `random` is swapped for `np.random`, a solver is called with fresh entropy, or a call cannot be
+    resolved (`draw unknown`).
+  * `C17_introspected_well_seeded` ties the table to a list it was NOT rendered from: `SeedTable.introspected` comes
+    from importing the package and asking `inspect.signature` (harness/c17_translate.py, `introspect_public`).  Every
+    public function with a `seed` parameter found that way has an entry, and that entry is well seeded.  It fails
+    when the AST scan misses a public seeded callable (one made by `functools.partial`, a factory, an assignment).
+  * `C17_same_seed_same_draws` is C17 as stated, on the model, for exactly those functions: same seed ⇒ same drawn
+    values, whatever was called or drawn before and in between.
+
+  What these theorems do not say: that equal draws give equal *output* (decided on the real code at run time), and
+  that the table describes the Python text faithfully (the translator is trusted and cross-checked at run time).
 -/
 import XgiModel.C17.Rng
 import XgiModel.C17.Lemmas
@@ -30,32 +41,38 @@ theorem wellSeeded_sound (G : Gens) (T : Table) (effs : List Eff) (h : wellSeede
       (fun σ σ' e a b => rel_eff G T T.length (some seed) σ σ' e a b) effs Seeded.none σ' _ _ hw hrel
     exact this.1
 
-/-- The trace of a well-seeded effect list is a function of the seed alone. -/
-theorem wellSeeded_trace_of_seed (G : Gens) (T : Table) (effs : List Eff) (h : wellSeeded T effs = true) :
-    ∃ t : Seed → Trace, ∀ seed w, (exec G T effs seed w).1 = t seed :=
-  ⟨fun seed => (exec G T effs seed ⟨⟨fun _ => 0, 0⟩, ⟨fun _ => 0, 0⟩, ⟨fun _ => 0, 0⟩⟩).1,
-   fun seed w => wellSeeded_sound G T effs h seed w _⟩
-
 /-- The obligation on the regenerated table: every function of xgi that takes a seed (the public ones and
     the private ones they forward it to) obeys the seeding discipline in the source as it is now. -/
 theorem C17_table : ∀ f ∈ SeedTable.fns, wellSeeded SeedTable.fns f.2 = true := by
   decide
 
-/-- every function listed as public is in the table (so `C17_table` speaks about it) -/
-theorem C17_public_in_table : ∀ n ∈ SeedTable.public, (SeedTable.fns.lookup n).isSome = true := by
-  decide
+/-- Every public callable with a `seed` parameter that *importing the package* reveals (`SeedTable.introspected`,
+    obtained with `inspect.signature`, not from the AST and not from `SeedTable.fns`) has an entry in the table
+    translated from the source, and that entry obeys the seeding discipline. -/
+theorem C17_introspected_well_seeded :
+    ∀ n ∈ SeedTable.introspected,
+      ∃ effs, SeedTable.fns.lookup n = some effs ∧ wellSeeded SeedTable.fns effs = true := by
+  have h : ∀ n ∈ SeedTable.introspected, entryOk SeedTable.fns n = true := by decide
+  intro n hn
+  have hn' := h n hn
+  unfold entryOk at hn'
+  cases hl : SeedTable.fns.lookup n with
+  | none => rw [hl] at hn'; cases hn'
+  | some effs => rw [hl] at hn'; exact ⟨effs, rfl, hn'⟩
 
-/-- C17 on the model: for every seeded function `f` of the current source, calling it with seed `s`, then
-    running anything (`between`: any effect list, e.g. another seeded function with another seed `s'`, or
-    raw draws from the global generators), then calling `f` with `s` again draws exactly the same values —
-    from every initial world. -/
+/-- C17 on the model: for every public seeded function `n` of the current source (found by introspection), with
+    `effs` its translated body: calling it with seed `s`, then running anything (`between`: any effect list, e.g.
+    another seeded function with another seed `s'`, or raw draws from the global generators), then calling it with
+    `s` again draws exactly the same values — from every initial world, for every family of generators. -/
 theorem C17_same_seed_same_draws (G : Gens) :
-    ∀ f ∈ SeedTable.fns, ∀ (between : List Eff) (s s' : Seed) (w : World),
-      (exec G SeedTable.fns f.2 s
-        (exec G SeedTable.fns between s' (exec G SeedTable.fns f.2 s w).2).2).1
-      = (exec G SeedTable.fns f.2 s w).1 := by
-  intro f hf between s s' w
-  exact wellSeeded_sound G SeedTable.fns f.2 (C17_table f hf) s _ w
+    ∀ n ∈ SeedTable.introspected, ∃ effs, SeedTable.fns.lookup n = some effs ∧
+      ∀ (between : List Eff) (s s' : Seed) (w : World),
+        (exec G SeedTable.fns effs s
+          (exec G SeedTable.fns between s' (exec G SeedTable.fns effs s w).2).2).1
+        = (exec G SeedTable.fns effs s w).1 := by
+  intro n hn
+  obtain ⟨effs, hl, hws⟩ := C17_introspected_well_seeded n hn
+  exact ⟨effs, hl, fun between s s' w => wellSeeded_sound G SeedTable.fns effs hws s _ w⟩
 
 /-! ### non-vacuity -/
 
@@ -64,9 +81,20 @@ def gEx : Gens := ⟨fun n k => 1000 * n + k, fun n k => 2000 * n + k, fun n k =
 def wA : World := ⟨⟨fun k => 7 + k, 0⟩, ⟨fun k => 70 + k, 3⟩, ⟨fun k => 700 + k, 0⟩⟩
 def wB : World := ⟨⟨fun k => 9 + k, 5⟩, ⟨fun k => 90 + k, 0⟩, ⟨fun k => 900 + k, 1⟩⟩
 
--- the table is not empty and its entries really draw
+-- the table is not empty, its entries really draw, and the introspected list is not empty
 example : SeedTable.fns.length > 0 := by decide
 example : ∃ f ∈ SeedTable.fns, Eff.draw .pyGlobal ∈ f.2 := by decide
+example : SeedTable.introspected.length > 0 := by decide
+-- `entryOk` really refuses a name without an entry and an entry that is not well seeded
+example : entryOk [("f", [.draw .pyGlobal])] "g" = false := by decide
+example : entryOk [("f", [.draw .pyGlobal])] "f" = false := by decide
+example : entryOk [("f", [.draw .unknown])] "f" = false := by decide
+example : entryOk [("f", [.seed .pyGlobal true, .draw .pyGlobal])] "f" = true := by decide
+-- corollary of `wellSeeded_sound` (not counted as an obligation): the trace is a function of the seed alone
+example (G : Gens) (T : Table) (effs : List Eff) (h : wellSeeded T effs = true) :
+    ∃ t : Seed → Trace, ∀ seed w, (exec G T effs seed w).1 = t seed :=
+  ⟨fun seed => (exec G T effs seed ⟨⟨fun _ => 0, 0⟩, ⟨fun _ => 0, 0⟩, ⟨fun _ => 0, 0⟩⟩).1,
+   fun seed w => wellSeeded_sound G T effs h seed w _⟩
 -- a well-seeded list with real draws: the trace is non-empty and equal from both worlds
 example : wellSeeded [] [.seed .pyGlobal true, .draw .pyGlobal, .draw .pyGlobal, .draw .local] = true := by decide
 example : (exec gEx [] [.seed .pyGlobal true, .draw .pyGlobal, .draw .pyGlobal, .draw .local] 4 wA).1
@@ -80,6 +108,10 @@ example : (exec gEx [] [.draw .pyGlobal] 4 wA).1 ≠ (exec gEx [] [.draw .pyGlob
 example : wellSeeded [] [.seed .pyGlobal true, .draw .npGlobal] = false := by decide
 example : (exec gEx [] [.seed .pyGlobal true, .draw .npGlobal] 4 wA).1
     ≠ (exec gEx [] [.seed .pyGlobal true, .draw .npGlobal] 4 wB).1 := by decide
+-- an unresolved call (`draw unknown`) after a correct seeding is rejected, and really is world-dependent in the model
+example : wellSeeded [] [.seed .pyGlobal true, .draw .unknown] = false := by decide
+example : (exec gEx [] [.seed .pyGlobal true, .draw .unknown] 4 wA).1
+    ≠ (exec gEx [] [.seed .pyGlobal true, .draw .unknown] 4 wB).1 := by decide
 -- a solver with fresh entropy before seeded draws (the shape of spectral_clustering before its fix)
 example : wellSeeded [("km", [.seed .local false, .draw .local])] [.draw .osEntropy, .forwardSeed "km"] = false := by
   decide
